@@ -317,7 +317,8 @@ replay = common.generic_replay
 
 
 def run(ck):
-    ck.trusted += ['translator tools/gen_elements.py (Python ast over periodictable/group*.py; regex over the two .pyx tables)',
+    ck.trusted += ['translator tools/gen_isolayout.py (Python ast: the per-atom encoder statements of isomorphism.py -> Gallina, fail closed; attribute-to-field mapping in its PRELUDE)',
+                   'translator tools/gen_elements.py (Python ast over periodictable/group*.py; regex over the two .pyx tables)',
                    'tools/gen_runtime.py (imports chython under the CachedMethods shim harness/boot.py)',
                    'CPython 3.12.1', 'tools/pyx2py.py (fail-closed .pyx transpiler, for the pack representability sweep)',
                    'harness/iso_pyx.py (fail-closed transpiler of _isomorphism.pyx, for the matcher representability sweep)']
@@ -327,7 +328,7 @@ def run(ck):
                         'search: same space on the live classes plus charge -4..4 x radical; a case is (element, isotope) or '
                         '(element, charge, radical); all are distinct')
     ck.extra['exhaustive'] = True
-    proved = common.standard_proof_steps(ck, translators=['elements', 'runtime'])
+    proved = common.standard_proof_steps(ck, translators=['elements', 'runtime', 'isolayout'])
     search(ck)
     search_lookup_entry_points(ck)
     search_pack_states(ck)
